@@ -11,7 +11,8 @@ LEVEL = "exploration"
 RULE = ("case = FileSpec with an r x c data section of plain decimal tokens (int, fixed, exponent, signed, '+5', "
         "'.5', '5.', NULL), blank/tab separators and padding, blank and '#' lines at any position (first and last "
         "line of the section included), ~A last or followed by ~P/~O/custom sections, LF/CRLF, with/without final "
-        "newline, declared curves == or != c. Oracle: differential - engine='numpy' vs engine='normal': same curve "
+        "newline, declared curves == or != c; one case in eight carries a character that only str.splitlines() treats as a "
+        "line break (FF, VT, FS, GS, RS, NEL, U+2028/9) inside a ~Well description. Oracle: differential - engine='numpy' vs engine='normal': same curve "
         "count and lengths, bit-identical non-NaN samples, same NaN positions, same header content; one engine "
         "raising while the other succeeds is a violation. A wrapper around the numpy engine entry point records "
         "whether the fast path produced the data. Non-trivial: fast path produced the data AND the layout has a "
@@ -27,6 +28,12 @@ def build(case):
     c = case["c"]
     curves = [("C%d" % k, "", "", "") for k in range(case["d"])]
     spec = lastext.simple_spec(curves, [], nl=case["nl"], final_nl=case["final_nl"], dlm=case.get("dlm"))
+    if case.get("hdr_char"):
+        # a character that str.splitlines() (but no file iteration) treats as a line break, inside a header description:
+        # both engines address the data section of the same file and must find the same first row
+        for sec in spec["sections"]:
+            if sec["kind"] == "W":
+                sec["lines"].append(lastext.item("RMK", "", "", "page" + case["hdr_char"] + "break"))
     if case.get("wrap_spelling") is not None:
         # "one depth step per line": every spelling of the WRAP value other than YES
         for ln in spec["sections"][0]["lines"]:
@@ -245,6 +252,8 @@ def cases(draw, max_rows=10):
             rw["toks"] = [("-0.0" if draw(st.integers(0, 5)) == 0 else t) for t in rw["toks"]]
     elif k == 1:
         extra["comment_char"] = draw(st.sampled_from(["%", ";", "!"]))
+    if draw(st.integers(0, 7)) == 0:
+        extra["hdr_char"] = draw(st.sampled_from(["\x0c", "\x0b", "\x1c", "\x1d", "\x1e", "\x85", "\u2028", "\u2029"]))
     if draw(st.integers(0, 5)) == 0:
         extra["wrap_spelling"] = draw(st.sampled_from(["No", "no", "N", "", "FALSE", "nO"]))
         if draw(st.booleans()):
